@@ -126,6 +126,8 @@ pub struct CallLog {
     /// reset / rf switch / delay calls
     pub other: u16,
     pub fault_fired: bool,
+    /// first byte of the SPI transaction the injected fault hit (None: none, or a fault of another kind)
+    pub fault_cmd: Option<u8>,
 }
 impl CallLog {
     pub fn touched(&self) -> bool {
@@ -220,6 +222,7 @@ impl World {
             }
         }
         if self.fault_hits(FaultKind::Spi, idx) {
+            self.call.fault_cmd = cmd.first().copied();
             self.env.tr(|| format!("spi#{idx} {} -> FAULT (not delivered)", hex(&cmd)));
             return Err(ErrorKind::Other);
         }
@@ -228,6 +231,7 @@ impl World {
             Chip::C127(c) => c.transaction(&mut self.env, &cmd, nread),
         };
         if self.fault_hits(FaultKind::SpiLate, idx) {
+            self.call.fault_cmd = cmd.first().copied();
             self.env.tr(|| format!("spi#{idx} {} -> FAULT (delivered to the chip, reported as failed)", hex(&cmd)));
             return Err(ErrorKind::Other);
         }
